@@ -17,7 +17,7 @@ RULE = ("Hypothesis draws an arbitrary arc subset (order 1..3 quick / 1..5 thoro
         "distinct out-degrees.")
 ASSUMPTIONS = ["graphs are arc subsets of the de Bruijn graph; fast mode only on graphs without out-degree 3 and "
                "only for strings whose walkable prefix carries no more bits than requested",
-               "the supplied check, when present, has length >= 1"]
+               "an empty supplied check matches no strand (the check function is defined for n >= 1)"]
 
 
 @st.composite
@@ -67,7 +67,7 @@ def cases(draw, tier, fast):
         text = draw(st.text(alphabet="ACGT", min_size=0, max_size=20))
     else:
         text = draw(gens.any_strings(16))
-    check_kind = draw(st.sampled_from(["none", "none", "right", "right", "wrong", "wrong_length", "foreign"]))
+    check_kind = draw(st.sampled_from(["none", "none", "right", "right", "wrong", "wrong_length", "foreign", "empty"]))
     check_len = draw(st.integers(1, 6))
     extra = draw(st.sampled_from([0, 0, 0, 1, 2, 5]))
     return {"graph": graph, "text": text, "table": draw(gens.tables(graph["k"])), "fast": fast,
@@ -79,6 +79,8 @@ def build_check(case):
     text, kind, n = case["text"], case["check_kind"], case["check_len"]
     if kind == "none":
         return None
+    if kind == "empty":
+        return ""  # matches no strand: the check function is defined for n >= 1 only
     acgt = all(c in o.NUC and len(c) == 1 for c in text)
     right = o.ref_vt(text, n) if acgt else "A" * n
     if kind == "right":
@@ -115,7 +117,7 @@ def evaluate(case):
         width = o.digits_value(digits).bit_length() + case["extra"]
     check = build_check(case)
     acgt = all(c in o.NUC and len(c) == 1 for c in text)
-    check_ok = check is None or (acgt and o.ref_vt(text, len(check)) == check)
+    check_ok = check is None or (len(check) > 0 and acgt and o.ref_vt(text, len(check)) == check)
     expected_accept = walk and check_ok
     labels = ["fast" if fast else "normal", "check:" + case["check_kind"], "k=%d" % k]
     if walk:
@@ -162,7 +164,7 @@ def s_fast(tier):
 
 
 FLOORS = {"foreign_at_deg1": 60, "foreign_at_branching": 60, "accept": 200, "reject:branching": 100, "reject:deg1": 60, "reject:dead_vertex": 40,
-          "reject:check_only": 60, "reject:foreign_char": 60, "reject_pos>0": 150}
+          "reject:check_only": 60, "reject:foreign_char": 60, "reject_pos>0": 150, "check:empty": 150}
 
 SUBCHECKS = [
     SubCheck("normal", evaluate, strategy=s_normal, examples=(5000, 50000), shards=(16, 16), floors=FLOORS, rule=RULE),
